@@ -101,8 +101,10 @@ class Ctx:
             raise BrokenTie("build-harness", r.stdout)
         return os.path.join(out, "uvharness")
 
-    def build_lean(self):
-        r = sh(["flock", os.path.join(WORK, ".lake.lock"), "lake", "build"], cwd=LEAN)
+    def build_lean(self, modules=()):
+        """the executable model (uvdriver) and the given modules of the proof library - not the whole library: a theorem
+        of another property that no longer checks (its own check reports that) must not fail this one"""
+        r = sh(["flock", os.path.join(WORK, ".lake.lock"), "lake", "build", "uvdriver"] + list(modules), cwd=LEAN)
         if r.returncode != 0:
             raise BrokenTie("lake-build", r.stdout[-3000:])
         return r.stdout
@@ -130,6 +132,7 @@ class Ctx:
                 if m: bad.append("%s: %s" % (os.path.relpath(p, LEAN), m.group(0).strip()))
         if bad:
             raise BrokenTie("audit-grep", "; ".join(bad))
+        self.build_lean(files)
         imports = "\n".join("import " + f for f in files)
         body = "\n".join("#print axioms %s" % t[0] for t in theorems)
         path = os.path.join(WORK, "audit_%s.lean" % self.prop)
